@@ -20,8 +20,8 @@
       factorisation / the Gram–Schmidt flags are complete before the regularisation step that throws).
 
   `obsOfAnswer` reads a `SolverObs` off the shared `Ls.Answer` record; the per-algorithm observation
-  functions (`obsGso`, `obsChol`, `obsEnv`, `obsSvdCert`) are in `Lemmas/NetWorldSolvers.lean` next to
-  the proofs that they meet the specification.
+  functions are next to the proofs that they meet the specification: `obsGso` in `Lemmas/NetWorldGso.lean`,
+  `obsChol` in `Lemmas/NetWorldChol.lean`, `obsEnv` and `obsSvdCert` in `Lemmas/NetWorldEnv.lean`.
 
   Core Lean only.
 -/
